@@ -169,8 +169,14 @@ def _W(M):
 
 
 def _tol(M):
-    W = _W(M)
-    sv = np.linalg.svd(W, compute_uv=False)
+    try:
+        W = _W(M)
+        if not np.all(np.isfinite(W)):
+            raise ValueError("non-finite system")
+        sv = np.linalg.svd(W, compute_uv=False)
+    except (ZeroDivisionError, ValueError, np.linalg.LinAlgError):
+        # coincident points: the code's own scaling of the system divides by a zero distance - the identities are not evaluable on such a set
+        return float("inf"), float("inf"), 0.0
     cond = float(sv[0] / sv[-1]) if sv[-1] > 0 else float("inf")
     spread = math.sqrt(float(np.max(M.distances_to_xopt())))
     pts = float(np.max(np.abs(M.xbase + M.points[:M.npt(), :])))
@@ -188,6 +194,12 @@ def identities(D, M, kinds):
     scale = max(1.0, float(np.max(np.abs(M.fval_v[:npt, :]))))
     xopt = M.xopt()
     Y = np.array([M.xpt(k) for k in range(npt)])
+    # "reproduces the stored residual at every interpolation point": the point is where the driver EVALUATED the residual now stored in slot k
+    # (its own record, by evaluation number), expressed relative to the current base - not the model's copy of the coordinates
+    for k in range(npt):
+        rec = run.points.get(int(M.eval_num[k]))
+        if rec is not None:
+            Y[k] = np.asarray(rec["x"], dtype=float) - M.xbase
     if "interp" in kinds:
         pred = np.array([M.model_value(Y[k], d_based_at_xopt=False, with_const_term=True) for k in range(npt)])
         E = pred - M.fval_v[:npt, :]
@@ -238,12 +250,22 @@ def _c16_trace(inst):
         warnings.simplefilter("ignore")
         x0 = base.copy()
         r0 = D.evaluate(x0, resid_at(x0))
-        M = D.Model(cap, x0.copy(), r0, -1e20 * np.ones(n), 1e20 * np.ones(n), [], 1, do_logging=False, precondition=bool(inst.get("precond", True)))
+        xl, xu = -1e20 * np.ones(n), 1e20 * np.ones(n)
+        if inst.get("box"):
+            # a box of 0.6 .. 3 spreads on each side of the first base point (tight against the base shifts, which move by about one spread):
+            # every point the driver proposes is first brought into it, as the solver's own steps are
+            xl = base - spread * np.array([float(v) for v in rng.choice([0.6, 1.5, 3.0], size=n)])
+            xu = base + spread * np.array([float(v) for v in rng.choice([0.6, 1.5, 3.0], size=n)])
+        M = D.Model(cap, x0.copy(), r0, xl, xu, [], 1, do_logging=False, precondition=bool(inst.get("precond", True)))
+
+        def feas(xs):
+            return np.minimum(np.maximum(xs, M.sl), M.su)
         ninit = int(inst["ninit"])
         for k in range(1, ninit):
             xs = rng.normal(size=n) * spread
             if k <= n:
                 xs = np.zeros(n); xs[k - 1] = spread * (1.0 if rng.random() < 0.5 else -1.0)
+            xs = feas(xs)
             r = D.evaluate(M.xbase + xs, resid_at(M.xbase + xs))
             M.change_point(k, xs, r, D.nx)
         for step in range(inst["len"]):
@@ -253,7 +275,7 @@ def _c16_trace(inst):
                 # history: an exact tie with the best point at an earlier index; a fit; another point replaced (worse) and the system factorised; that
                 # point re-sampled - the re-selection of the best point (argmin, first index wins) now moves it to the earlier index; re-fit and check
                 k = int(rng.integers(0, M.kopt))
-                xs = M.xopt() + rng.normal(size=n) * spread
+                xs = feas(M.xopt() + rng.normal(size=n) * spread)
                 r = D.evaluate(M.xbase + xs, -M.ropt())
                 M.change_point(k, xs, r, D.nx)
                 try:
@@ -261,7 +283,7 @@ def _c16_trace(inst):
                 except Exception:  # noqa
                     pass
                 j = [i for i in range(npt) if i not in (k, M.kopt)][0]
-                xs = M.xopt() + rng.normal(size=n) * spread
+                xs = feas(M.xopt() + rng.normal(size=n) * spread)
                 xj = M.xbase + xs
                 r = D.evaluate(xj, resid_at(xj) + 3.0 * (1.0 + np.abs(M.ropt())))       # clearly worse than the tied pair
                 M.change_point(j, xs, r, D.nx)
@@ -276,7 +298,7 @@ def _c16_trace(inst):
                 continue
             if u < 0.35:
                 k = npt if (npt < M.num_pts and rng.random() < 0.6) else int(rng.integers(0, npt))
-                xs = M.xopt() + rng.normal(size=n) * spread * float(rng.choice([0.3, 1.0, 2.0]))
+                xs = feas(M.xopt() + rng.normal(size=n) * spread * float(rng.choice([0.3, 1.0, 2.0])))
                 w = rng.random()
                 if w < 0.12 and k < npt and k != M.kopt:
                     # in-place re-evaluation: the very coordinates already stored in slot k, with a residual good enough to make it the best point
@@ -301,7 +323,7 @@ def _c16_trace(inst):
                     pts_abs = [M.xbase + M.xopt() + rng.normal(size=n) * sp for _ in range(3)]
                     before = [M.model_value(p - M.xbase, d_based_at_xopt=False, with_const_term=True) for p in pts_abs]
                     g0, H0 = M.build_full_model()
-                    shift = M.xopt().copy() if rng.random() < 0.7 else rng.normal(size=n) * sp
+                    shift = M.xopt().copy() if (rng.random() < 0.7 or inst.get("box")) else rng.normal(size=n) * sp      # (the base stays inside a finite box)
                     M.shift_base(shift)
                     after = [M.model_value(p - M.xbase, d_based_at_xopt=False, with_const_term=True) for p in pts_abs]
                     g1, H1 = M.build_full_model()
@@ -329,7 +351,7 @@ def _c16_trace(inst):
                     r = D.evaluate(xk, resid_at(xk) + 0.01 * rng.normal(size=m), newpoint=False)
                     M.add_new_sample(ks[0], r)
             elif u < 0.72 and npt == M.num_pts and M.num_pts < cap + 1:
-                xs = M.xopt() + rng.normal(size=n) * spread
+                xs = feas(M.xopt() + rng.normal(size=n) * spread)
                 r = D.evaluate(M.xbase + xs, resid_at(M.xbase + xs))
                 M.add_new_point(xs, r, D.nx)
             elif npt >= 2:
